@@ -161,7 +161,11 @@ class Run(RunBase):
         if len(points) == 1:
             points = list(points) * 2  # Lanelet.contains_points wants a polyline (>= 2 points)
         try:
-            res_raw = self.net.find_lanelet_by_position([np.array(p, dtype=float) for p in points])
+            self._form = getattr(self, "_form", 0) + 1
+            if self._form % 3 == 0:
+                res_raw = self.net.find_lanelet_by_position([[float(p[0]), float(p[1])] for p in points])
+            else:
+                res_raw = self.net.find_lanelet_by_position([np.array(p, dtype=float) for p in points])
         except Exception as e:  # noqa
             raise Violation(self._sig("find_lanelet_by_position-raised"),
                             f"find_lanelet_by_position raised {type(e).__name__}: {e} after route {self.route}")
